@@ -166,6 +166,14 @@ def function_coverage_definitions():
     return out
 
 
+def large_int_calibration_definition():
+    """calibration values given as (large) Python integers: sqrt(1 + c^2) with c = 2^32 needs c^2 = 2^64"""
+    sm = {"w": add(var("w"), mul(var("dt"), fn("sqrt", add(num(1), powi(var("c"), 2))))), "s": add(var("s"), mul(var("dt"), fn("sin", mul(var("k"), var("s")))))}
+    return {"dt": "dt", "state": ["w", "s"], "control": [], "calibration": ["c", "k"], "state_model": sm,
+            "sensors": {"gps": {"z": mul(num(1, 2), fn("sqrt", add(powi(var("c"), 2), num(4))))}}, "process_noise": {}, "sensor_noise": {"gps": {"z": 1.0}},
+            "calibration_map": {"c": 2**32, "k": 3}, "rational": False}
+
+
 def signed_zero_definition():
     """atan2 on its branch cut: the sign of a zero input selects +pi or -pi, so a compiled model must not reuse
     anything computed for +0.0 when it is called with -0.0 (and vice versa)"""
